@@ -12,7 +12,7 @@ PROPERTY = {
     'id': 'C03',
     'technique': 'CrossHair symbolic execution of Builder/merge code with symbolic priority flags injected through the real YAML loader; z3 decides every path; exact decision-tree selectors for shape',
     'assumptions': [
-        'metadata codec stub: tag !metadata:sK yields the (symbolic) kwargs that pickle.loads(bytes.fromhex(..)) would yield; native replays use the real pickle codec',
+        'metadata codec stub: tag !metadata:<token> yields the (symbolic) kwargs that pickle.loads(bytes.fromhex(..)) would yield; native replays use the real pickle codec',
         'leaf values are distinct concrete markers (merge code never inspects scalar values)',
         'CPython 3.12, PyYAML 6.0.3, CrossHair 0.0.110 / z3 modelling of Python semantics',
     ],
